@@ -21,7 +21,7 @@ from ..selftest import Mutant
 from . import kinds_driver
 
 PROP = "C01"
-TECHNIQUE = "static analysis: rank-domain abstract interpretation (EXT/INT/FULL index spaces) over the map kernel + CFG must-pass of array materialisation + iteration-source and sibling-decision analysis + caller-supplied-entries-win rule on the internal-shape merge (store key = guard key)"
+TECHNIQUE = "static analysis: rank-domain abstract interpretation (EXT/INT/FULL index spaces) over the map kernel + CFG must-pass of array materialisation + iteration-source and sibling-decision analysis + caller-supplied-entries-win rule on the internal-shape merge (store key = guard key) + order-tagged sequences (listing / name / insertion order vs linear index), leading-positions-then-ellipsis indices and selected-subset sequences in the kind engine"
 RUN = "pipefunc.map._run"
 EXPLANATION = (
     "Static analysis of the map kernel: a purpose-built rank-domain type system (external / internal / full index "
